@@ -8,6 +8,7 @@ import (
 	"fmt"
 	"os"
 	"path/filepath"
+	"sort"
 	"strconv"
 	"strings"
 )
@@ -107,6 +108,16 @@ func Report(property string, findings []Finding) (exit int, unknown int) {
 			fmt.Printf("VIOLATION property=%s replay=%s\n", property, f.Replay)
 			fmt.Printf("  key=%s\n  %s\n", f.Key, strings.ReplaceAll(f.Msg, "\n", "\n  "))
 		}
+	}
+	var unseen []string
+	for k := range known {
+		if !seenKnown[k] {
+			unseen = append(unseen, k)
+		}
+	}
+	sort.Strings(unseen)
+	for _, k := range unseen {
+		fmt.Printf("KNOWN-FINDING: property=%s key=%s %s (listed; not reached by this run)\n", property, k, known[k])
 	}
 	if unknown > 10 {
 		fmt.Printf("... and %d more violations of %s (replay files under %s/replays)\n", unknown-10, property, Root())
